@@ -4,7 +4,7 @@ id=$1; slug=$2; needs=$3; ran=$4; caught=$5
 d=/verif/seeded/$id-$slug; mkdir -p $d/demo
 cp /tmp/mut/demo-$id/patch.diff $d/patch.diff
 for f in /tmp/mut/demo-$id/*; do case $f in *patch.diff|*go.sum) ;; *) cp -r $f $d/demo/ ;; esac; done
-python3 - "${id%b}" "$needs" "$ran" "$caught" > $d/meta.json <<'PY'
+python3 - "$(echo $id | cut -c1-3)" "$needs" "$ran" "$caught" > $d/meta.json <<'PY'
 import json,sys
 print(json.dumps({"breaks_property":sys.argv[1],"needs_to_manifest":sys.argv[2],"confirmed_by_running":sys.argv[3],"detected_by":sys.argv[4],
  "compiles":True,"existing_tests":"54 pass, the 2 baseline always-fail tests fail as before (checked in the agent's worktree with the change applied)"},indent=1))
